@@ -142,7 +142,7 @@ Qed.
 (* ------------------------------------------------------------------ *)
 
 Definition angles (s : str) : str := filter is_angle s.
-Definition dquotes (s : str) : str := filter (N.eqb 34%N) s.
+Definition dquotes (s : str) : str := filter (fun c => N.eqb c 34) s.
 
 Definition amp_closed (p : str) : Prop := forall r, amp_ok (p ++ r) = amp_ok r.
 
@@ -176,7 +176,7 @@ Proof.
   intros H. apply andb_true_iff in H. destruct H as [Hc Hs]. rewrite (IH Hs).
   apply negb_true_iff in Hc. apply orb_false_iff in Hc. destruct Hc as [Hc _].
   apply orb_false_iff in Hc. destruct Hc as [_ Hc]. unfold is_quote in Hc.
-  apply orb_false_iff in Hc. destruct Hc as [Hc _]. rewrite N.eqb_sym. now rewrite Hc.
+  apply orb_false_iff in Hc. destruct Hc as [Hc _]. now rewrite Hc.
 Qed.
 
 Lemma no_angle_angles s : no_angle s = true -> angles s = [].
@@ -191,7 +191,7 @@ Proof.
   unfold no_quote, dquotes. induction s as [|c s IH]; simpl; [reflexivity|].
   intros H. apply andb_true_iff in H. destruct H as [Hc Hs]. rewrite (IH Hs).
   apply negb_true_iff in Hc. unfold is_quote in Hc. apply orb_false_iff in Hc. destruct Hc as [Hc _].
-  rewrite N.eqb_sym. now rewrite Hc.
+  now rewrite Hc.
 Qed.
 
 (* the static text of a template *)
@@ -242,14 +242,12 @@ Proof.
   rewrite url_text_eq. destruct (url_inner_closed url) as (A & Q & R).
   repeat split.
   - apply no_angle_angles. unfold no_angle in *. cbn [forallb]. rewrite forallb_app, A. reflexivity.
-  - apply no_quote_dquotes. unfold dquotes.
-    change (39%N :: url_inner url ++ [39%N]) with ([39%N] ++ url_inner url ++ [39%N]).
-    unfold dquotes. rewrite !filter_app. rewrite (no_quote_dquotes _ Q). reflexivity.
+  - change (39%N :: url_inner url ++ [39%N]) with ([39%N] ++ url_inner url ++ [39%N]).
+    unfold dquotes. rewrite !filter_app. fold (dquotes (url_inner url)).
+    rewrite (no_quote_dquotes _ Q). reflexivity.
   - intros r. cbn [app amp_ok]. change (N.eqb 39 38) with false. cbv iota.
     rewrite <- app_assoc, R. reflexivity.
 Qed.
-
-Lemma no_quote_dquotes_aux : True. Proof. exact I. Qed.
 
 Lemma page_markup_is_templates e url :
   markup_free (e_status e) = true -> markup_free (e_body e) = true ->
@@ -262,15 +260,18 @@ Proof.
   intros Hs Hb. rewrite render_nodebug. eexists. split; [reflexivity|].
   pose proof (render_nodebug e url) as Hr. unfold render in Hr.
   change Gen.ctx_hides_when_not_debug with true in Hr. cbv [orb negb] in Hr. cbv iota in Hr.
-  destruct (fill_keeps_markup _ _ _ (fun n v => ltac:(idtac) : _ -> _) template_no_amp Hr) as (A & Q & R).
-  2:{ repeat split; [exact A | exact Q |]. specialize (R []). rewrite app_nil_r in R. exact R. }
-  unfold ctx_of. intros Hn.
-  destruct (str_eqb n f_status); [injection Hn as <-; now apply plain_value|].
-  destruct (str_eqb n f_body); [injection Hn as <-; now apply plain_value|].
-  destruct (str_eqb n f_url); [injection Hn as <-; apply url_value|].
-  destruct (str_eqb n f_exception); [injection Hn as <-; apply plain_value, forbidden_plain|].
-  destruct (str_eqb n f_traceback); [injection Hn as <-; apply plain_value, forbidden_plain|].
-  discriminate.
+  assert (Hctx : forall n v,
+             ctx_of e (url_text isp url) Gen.ctx_forbidden_text Gen.ctx_forbidden_text n = Some v ->
+             angles v = [] /\ dquotes v = [] /\ amp_closed v).
+  { unfold ctx_of. intros n v Hn.
+    destruct (str_eqb n f_status); [injection Hn as <-; now apply plain_value|].
+    destruct (str_eqb n f_body); [injection Hn as <-; now apply plain_value|].
+    destruct (str_eqb n f_url); [injection Hn as <-; apply url_value|].
+    destruct (str_eqb n f_exception); [injection Hn as <-; apply plain_value, forbidden_plain|].
+    destruct (str_eqb n f_traceback); [injection Hn as <-; apply plain_value, forbidden_plain|].
+    discriminate. }
+  destruct (fill_keeps_markup _ _ _ Hctx template_no_amp Hr) as (A & Q & R).
+  repeat split; [exact A | exact Q |]. specialize (R []). rewrite app_nil_r in R. exact R.
 Qed.
 
 (* ------------------------------------------------------------------ *)
